@@ -311,3 +311,17 @@ func (r *seededReader) Read(p []byte) (int, error) {
 	}
 	return len(p), nil
 }
+
+
+// simTimeoutCtx is context.WithTimeout for code that runs under the simulated scheduler: the deadline is a scheduled
+// goroutine sleeping on the simulated clock. (context.WithTimeout would arm a runtime timer whose callback runs on a
+// goroutine the scheduler does not own, so the moment of the cancellation relative to the other goroutines' steps
+// would not replay.) The context reports Canceled, not DeadlineExceeded, when the time is up.
+func simTimeoutCtx(parent context.Context, d time.Duration) (context.Context, context.CancelFunc) {
+	ctx, cancel := context.WithCancel(parent)
+	simrt.Go(func() {
+		simrt.Sleep(d)
+		cancel()
+	})
+	return ctx, cancel
+}
